@@ -65,3 +65,114 @@ contract(
     static={},
     locals={"resource": Opt(Ref("Resource")), "slot_start": Opt(DT)},
 )
+
+# ---- task-side limits (C05: all tasks below a limited task together) ----------------------------------------------
+# chain(t, j): t itself for j == -1, its (j+1)-th ancestor for j >= 0
+ghost("chain", ["t", "j"], "ite(j == -1, t, some(anc(t, j)))")
+ghost("chain_in", ["t", "j"], "j == -1 or (j >= 0 and anc(t, j) is not None)")
+ghost("TLim", ["n", "sc"], "attr(n, 'limits', sc)")
+ghost("TLimOn", ["n", "sc"], "TLim(n, sc) is not None and len(some(TLim(n, sc))._limits) > 0")
+ghost("ChainLimWf", ["t", "sc"], "forall(j, implies(chain_in(t, j) and TLim(chain(t, j), sc) is not None, LimitsWf(some(TLim(chain(t, j), sc)))))")
+
+contract(
+    TS + "::TaskScenario.getAllLimits", props=["C05"],
+    params={"self": Ref("TaskScenario")}, ret=List(Ref("Limits")),
+    assumes=L.anc_axioms("self.property"),
+    ensures=[
+        # every limits object of the task and of every enclosing task is in the result, and nothing else
+        ("complete", "forall(j, implies(chain_in(self.property, j) and TLimOn(chain(self.property, j), self.scenarioIdx), "
+                     "exists(k, 0, len(result), result[k] == some(TLim(chain(self.property, j), self.scenarioIdx)))))"),
+        ("sound", "forall(k, 0, len(result), exists(j, j >= -1 and chain_in(self.property, j) and TLimOn(chain(self.property, j), self.scenarioIdx) "
+                  "and result[k] == some(TLim(chain(self.property, j), self.scenarioIdx))))"),
+    ],
+    loops={0: {"inv": [
+        ("cursor", "task == ite(_k == 0, self.property, anc(self.property, _k - 1))"),
+        ("complete", "forall(j, -1, _k - 1, implies(chain_in(self.property, j) and TLimOn(chain(self.property, j), self.scenarioIdx), "
+                     "exists(k, 0, len(all_limits), all_limits[k] == some(TLim(chain(self.property, j), self.scenarioIdx)))))"),
+        ("sound", "forall(k, 0, len(all_limits), exists(j, j >= -1 and j < _k - 1 and chain_in(self.property, j) and "
+                  "TLimOn(chain(self.property, j), self.scenarioIdx) and all_limits[k] == some(TLim(chain(self.property, j), self.scenarioIdx))))"),
+    ], "locals": {"task": Opt(Ref("Task")), "limits": Opt(Ref("Limits"))}}},
+    locals={"all_limits": local(List(Ref("Limits")), "all_limits"), "task": Opt(Ref("Task"))},
+)
+
+ghost("ResId", ["r"], "ite(r is None, None, some(r).id)")
+_gal_post_as_pre = [
+    ("complete", "forall(j, implies(chain_in(self.property, j) and TLimOn(chain(self.property, j), self.scenarioIdx), "
+                 "exists(k, 0, len(result), result[k] == some(TLim(chain(self.property, j), self.scenarioIdx)))))"),
+]
+
+contract(
+    TS + "::TaskScenario.limitsOk", props=["C05"],
+    params={"self": Ref("TaskScenario"), "sbIdx": Int, "resource": Opt(Ref("Resource"))}, ret=Bool,
+    defaults={"resource": None},
+    requires=[("wf", "ChainLimWf(self.property, self.scenarioIdx)")],
+    assumes=L.anc_axioms("self.property"),
+    ensures=[
+        # C05: a slot is accepted only if the limits of the task and of every enclosing task admit it
+        ("sound", "implies(result, forall(j, implies(chain_in(self.property, j) and TLimOn(chain(self.property, j), self.scenarioIdx), "
+                  "LimitsOkSpec(some(TLim(chain(self.property, j), self.scenarioIdx)), sbIdx, True, ResId(resource)))))"),
+    ],
+    calls={"self.getAllLimits": ("contract", TS + "::TaskScenario.getAllLimits"),
+           # functional form of Limits.ok, proved as Limits.ok/exact (a contract call inside the search loop
+           # would lose the dependence of the answer on the loop index)
+           "limits.ok": ("spec", ["self", "i", "upper", "resource"], "LimitsOkSpec(self, i, upper, resource)")},
+)
+
+contract(
+    TS + "::TaskScenario.incLimits", variant="counting", props=["C05"],
+    params={"self": Ref("TaskScenario"), "sbIdx": Int, "resource": Opt(Ref("Resource"))},
+    defaults={"resource": None},
+    requires=[("wf", "ChainLimWf(self.property, self.scenarioIdx)")],
+    assumes=L.anc_axioms("self.property"),
+    ensures=[("ledger-frame", "True")],
+    calls={"self.getAllLimits": ("contract", TS + "::TaskScenario.getAllLimits"),
+           "limits.inc": ("contract", LM + "::Limits.inc")},
+    note="every limits object of the chain receives inc (call-site preconditions proved); the aggregated counting "
+         "postcondition across distinct limits objects is not carried (needs separation of their counter lists)",
+)
+
+_br_rs = "RSof(resource, self.scenarioIdx)"
+contract(
+    TS + "::TaskScenario.bookResource", props=["C01", "C03", "C05", "C06"],
+    params={"self": Ref("TaskScenario"), "resource": Ref("Resource")}, ret=Real,
+    requires=[
+        ("data", "resource.data is not None and 0 <= self.scenarioIdx and self.scenarioIdx < len(some(resource.data)) and "
+                 "some(resource.data)[self.scenarioIdx] is not None"),
+        ("prepared", f"{_br_rs}.scoreboard is not None"),
+        ("same", f"{_br_rs}.project == self.project and {_br_rs}.property == resource and {_br_rs}.scenarioIdx == self.scenarioIdx"),
+        ("slot", "self.currentSlotIdx is not None and 0 <= some(self.currentSlotIdx) and "
+                 f"some(self.currentSlotIdx) < len(some({_br_rs}.scoreboard).sb) and "
+                 "implies(self.project.scoreboard is not None, some(self.currentSlotIdx) < len(some(self.project.scoreboard).sb))"),
+        ("g", "PG(self.project) >= 1 and self.project.attributes['start'] is not None"),
+        ("offset", "0 <= self.slotStartOffset and self.slotStartOffset < PG(self.project)"),
+        ("ledger", f"Ledger({_br_rs})"),
+        ("lists", f"forall(s, forall(t, implies(s != t and s in {_br_rs}.slotTaskUsage and t in {_br_rs}.slotTaskUsage, "
+                  f"{_br_rs}.slotTaskUsage[s] != {_br_rs}.slotTaskUsage[t])))"),
+        ("res-limits-wf", "NodeLimWf(resource, self.scenarioIdx) and AncLimWf(resource, self.scenarioIdx)"),
+        ("task-limits-wf", "ChainLimWf(self.property, self.scenarioIdx)"),
+        ("eff", "attr(resource, 'efficiency', self.scenarioIdx) is None or some(attr(resource, 'efficiency', self.scenarioIdx)) >= 0"),
+        ("task-data", "self.property.data is not None and self.scenarioIdx < len(some(self.property.data))"),
+    ],
+    assumes=L.anc_axioms("self.property") + L.anc_axioms("resource"),
+    ensures=[
+        ("ledger", f"Ledger({_br_rs})"),
+        # C01: the start offset only ever *raises* the used seconds of the first slot, never above the slot
+        ("usage-kept-when-refused", f"implies(result == 0, forall(s, usage({_br_rs}, s) == old(usage({_br_rs}, s))))"),
+        ("other-slots", f"forall(s, implies(s != some(self.currentSlotIdx), used({_br_rs}, s) == old(used({_br_rs}, s)) and "
+                        f"usage({_br_rs}, s) == old(usage({_br_rs}, s))))"),
+        ("filled", f"implies(result > 0, used({_br_rs}, some(self.currentSlotIdx)) == PG(self.project))"),
+        # C05: a booking happens only while the task's own and inherited limits admit it
+        ("task-limits", "implies(result > 0, forall(j, implies(chain_in(self.property, j) and TLimOn(chain(self.property, j), self.scenarioIdx), "
+                        "old(LimitsOkSpec(some(TLim(chain(self.property, j), self.scenarioIdx)), some(self.currentSlotIdx), True, resource.id)))))"),
+        ("on-shift", f"implies(result > 0, old(OnShiftSpec({_br_rs}, some(self.currentSlotIdx))))"),
+        ("cursor-kept", "self.currentSlotIdx == old(self.currentSlotIdx) and self.slotStartOffset == old(self.slotStartOffset) "
+                        "and self.doneEffort == old(self.doneEffort)"),
+    ],
+    calls={
+        "res_scenario.prepareScheduling": ("havoc", NoneT, ["ResourceScenario.scoreboard"]),
+        "res_scenario.available": ("contract", RS + "::ResourceScenario.available"),
+        "res_scenario.book": ("contract", RS + "::ResourceScenario.book"),
+        "self.limitsOk": ("contract", TS + "::TaskScenario.limitsOk"),
+    },
+    static={"hasattr(self, 'slotStartOffset')": True},
+)
